@@ -133,7 +133,7 @@ StoredFrom(psize, areas, i, acc) ==
   IF i > Len(areas) THEN acc
   ELSE LET s == SubNewT(psize, areas[i]) IN StoredFrom(<<s[3], s[4]>>, areas, i + 1, Append(acc, s))
 StoredChainT(img, areas) == StoredFrom(<<img.w, img.h>>, areas, 1, <<>>)
-\* SubImage::draw / draw_sub_image (sub_image.rs:49-66): the innermost stored area is translated
+\* SubImage::draw / draw_sub_image (sub_image.rs:53-67): the innermost stored area is translated
 \* by the top-left corners of all enclosing sub-images and handed to the root image
 RECURSIVE SumTL(_, _)
 SumTL(st, i) == IF i = 0 THEN <<0, 0>> ELSE LET r == SumTL(st, i - 1) IN <<r[1] + st[i][1], r[2] + st[i][2]>>
@@ -149,9 +149,9 @@ DrawChainT(img, areas, variant) ==
   IF areas = <<>> THEN DrawRawT(img, variant) ELSE DrawSubRawT(img, RootAreaT(img, areas), variant)
 
 (* TRANSCRIBED: src/image/mod.rs *)
-\* Image::new (mod.rs:139) / Image::with_center (mod.rs:146): the offset
+\* Image::new (mod.rs:141) / Image::with_center (mod.rs:149): the offset
 ImageOffsetT(mode, at, size) == IF mode = 0 THEN at ELSE TopLeft(WithCenter(at, size))
-\* Drawable::draw (mod.rs:233): draw into display.translated(offset)
+\* Drawable::draw (mod.rs:232): draw into display.translated(offset)
 ImageDrawT(img, areas, mode, at, variant) ==
   LET c == DrawChainT(img, areas, variant)  o == ImageOffsetT(mode, at, SizeT(img, areas))
   IN IF c = <<>> THEN <<>> ELSE << [area |-> Shift(c[1].area, o), cp |-> c[1].cp] >>
